@@ -136,10 +136,10 @@ def run_case(case):
     got = dist_fields(D)
     if got is None or got[0] != fam or len(got[1]) != len(params) or any(abs(a - float(b)) > 1e-12 * max(1, abs(float(b))) for a, b in zip(got[1], params)):
         bad("c11.text-form-differs", f"str() = {D.generate_string(True)!r}")
-    for name in ("gamma(3, 4)", "normal(100,10)", "weibull(2)", "schulz(100,50)", "floryschulz(0.1)"):
+    for name in ["gamma(3, 4)", "normal(100,10)", "weibull(2)", "schulz(100,50)", "floryschulz(0.1)"] + rd.unknown_names(fam, params, rng):
         try:
-            get_distribution(name)
-            bad("c11.unknown-name-accepted", f"get_distribution({name!r}) returned an object")
+            dd = get_distribution(name)
+            bad("c11.unknown-name-accepted", f"get_distribution({name!r}) returned an object ({dd.generate_string(True)!r}): only {rd.KNOWN_NAMES} are documented names")
         except Exception:
             cnt["unknown_names_rejected"] += 1
 
